@@ -806,6 +806,8 @@ Section CrashP.
     (* nothing is cached unless a block was finalised since the last commit *)
     ci_empty : w_dirty st = false -> b_cache (st_hash s) = [] ->
                t_cache (st_t s) = [] /\ b_cache (st_blk s) = [] /\ b_cache (st_raw s) = [];
+    (* the cached latest block number, while there is one, is the height *)
+    ci_lbn : forall x, st_lbn s = Some x -> w_h st = Some x;
   }.
 
   Lemma BT_same t st st' :
@@ -874,7 +876,7 @@ Section CrashP.
   Proof.
     assert (B : BT b_empty wf_init).
     { constructor; cbn; try (intros; contradiction). split; constructor. }
-    constructor; cbn [st_empty st_hash st_blk st_raw st_t wf_init w_h w_hc w_dirty w_open]; try exact B;
+    constructor; cbn [st_empty st_hash st_blk st_raw st_t st_lbn wf_init w_h w_hc w_dirty w_open]; try exact B;
       try discriminate; try reflexivity.
     - intros _ _. repeat split.
   Qed.
@@ -889,7 +891,7 @@ Section CrashP.
     CInv s' (fs_step F o) st'.
   Proof.
     intros I CI Hok Hwf Hs. destruct F as [cur sav].
-    destruct CI as [Hh Hb Hr Hord Hag Hfs Hfc Hhc Hrow Hemp]. cbn [fst snd] in *.
+    destruct CI as [Hh Hb Hr Hord Hag Hfs Hfc Hhc Hrow Hemp Hlbn]. cbn [fst snd] in *.
     destruct o as [stamp k v|which n v|n| | |n]; cbn [wf_step sto_step fs_step crash_step_ok] in *.
     - (* SV *)
       destruct (stamp_ok_for st stamp) eqn:Hst; [|discriminate]. injection Hwf as <-.
@@ -903,7 +905,7 @@ Section CrashP.
         destruct (w_h st); apply N.eqb_eq in Hst; exact Hst. }
       assert (G : forall t', CInv (mkStore t' (st_hash s) (st_blk s) (st_raw s) (st_max s) (st_lbn s))
                                   (upd cur k (s_set (cur k) stamp v), sav) st1).
-      { intros t'. constructor; cbn [st_t st_hash st_blk st_raw fst snd];
+      { intros t'. constructor; cbn [st_t st_hash st_blk st_raw st_lbn fst snd];
           try (apply (BT_same _ st); [reflexivity|exact Hhi|assumption]).
         - exact Hord.
         - intros hc Ehc k' m Hm. cbn [st1 w_hc] in Ehc. destruct (Hord hc Ehc) as (h & Eh & Hle).
@@ -917,7 +919,8 @@ Section CrashP.
           + apply (frozen_mono (cur k') (top st) (top st1) (Hfc k') Htop m Hm).
         - exact Hhc.
         - discriminate.
-        - discriminate. }
+        - discriminate.
+        - exact Hlbn. }
       destruct v as [v|]; cbn [sto_step] in Hs.
       + destruct (t_set N.eqb W (st_t s) stamp k v) as [t'| |]; cbn [rbind] in Hs; try discriminate.
         injection Hs as <-. apply G.
@@ -940,14 +943,14 @@ Section CrashP.
       assert (Hfc1 : forall k m, top st1 <= m -> cur k m = cur k (top st1)).
       { intros k m Hm. apply (frozen_mono (cur k) (top st) (top st1) (Hfc k) Htop m Hm). }
       destruct which as [|[q|q|]];
-        (constructor; cbn [st_t st_hash st_blk st_raw fst snd];
+        (constructor; cbn [st_t st_hash st_blk st_raw st_lbn fst snd];
          [ first [apply (BT_set _ st); [reflexivity|exact Hhi|exact Hlo|exact Hhin|assumption]
                  |apply (BT_same _ st); [reflexivity|exact Hhi|assumption]]
          | first [apply (BT_set _ st); [reflexivity|exact Hhi|exact Hlo|exact Hhin|assumption]
                  |apply (BT_same _ st); [reflexivity|exact Hhi|assumption]]
          | first [apply (BT_set _ st); [reflexivity|exact Hhi|exact Hlo|exact Hhin|assumption]
                  |apply (BT_same _ st); [reflexivity|exact Hhi|assumption]]
-         | exact Hord | exact Hag | exact Hfs | exact Hfc1 | exact Hhc | discriminate | discriminate ]).
+         | exact Hord | exact Hag | exact Hfs | exact Hfc1 | exact Hhc | discriminate | discriminate | exact Hlbn ]).
     - (* SHash *)
       destruct (row_ok_for st n) eqn:Hrowok; [|discriminate]. injection Hwf as <-. injection Hs as <-.
       destruct (kv_get (b_cache (st_hash s)) n) as [rowv|] eqn:Erow; [|discriminate].
@@ -960,7 +963,7 @@ Section CrashP.
         unfold row_ok_for in Hrowok. destruct (w_h st) as [h|] eqn:Eh.
         - apply N.eqb_eq in Hrowok. unfold top. rewrite Eh. destruct (w_dirty st); lia.
         - intros E. rewrite E in Hrowok. apply N.eqb_eq in Hrowok. lia. }
-      constructor; cbn [st_t st_hash st_blk st_raw fst snd];
+      constructor; cbn [st_t st_hash st_blk st_raw st_lbn fst snd];
         try (apply (BT_same _ st); [reflexivity|exact Hhi|assumption]).
       + intros hc Ehc. cbn [st1 w_hc w_h] in *. destruct (Hord hc Ehc) as (h & Eh & Hle).
         exists n. split; [reflexivity|]. unfold row_ok_for in Hrowok. rewrite Eh in Hrowok.
@@ -971,6 +974,11 @@ Section CrashP.
       + exact Hhc.
       + intros _ h [= <-]. unfold b_get. rewrite Erow. discriminate.
       + intros _ E. rewrite E in Erow. discriminate.
+      + intros x Hx. cbn [st1 w_h]. unfold row_ok_for in Hrowok.
+        destruct (st_lbn s) as [h0|] eqn:El.
+        * rewrite (Hlbn h0 eq_refl) in Hrowok. apply N.eqb_eq in Hrowok.
+          destruct (N.ltb_spec h0 n); [congruence|lia].
+        * congruence.
     - (* SCommit *)
       destruct (w_dirty st) eqn:Hd; [discriminate|]. injection Hwf as <-.
       unfold sto_commit in Hs.
@@ -985,7 +993,8 @@ Section CrashP.
           exists h. split; [exact Eh|lia].
         - specialize (D x Hx). unfold cache_hi, top in D. rewrite Hd in D.
           destruct (w_h st) as [h|]; [exists h; split; [reflexivity|exact D]|congruence]. }
-      constructor; cbn [sto_clear st_t st_hash st_blk st_raw fst snd w_h w_hc w_dirty w_open].
+      constructor; cbn [sto_clear st_t st_hash st_blk st_raw st_lbn fst snd w_h w_hc w_dirty w_open];
+        try discriminate.
       + apply BT_commit_clear; [apply Hh|apply (Hkeys _ Hh)].
       + apply BT_commit_clear; [apply Hb|apply (Hkeys _ Hb)].
       + apply BT_commit_clear; [apply Hr|apply (Hkeys _ Hr)].
@@ -1003,7 +1012,8 @@ Section CrashP.
       + intros _ _. repeat split.
     - (* SClear *)
       injection Hwf as <-. injection Hs as <-.
-      constructor; cbn [sto_clear st_t st_hash st_blk st_raw fst snd w_h w_hc w_dirty w_open].
+      constructor; cbn [sto_clear st_t st_hash st_blk st_raw st_lbn fst snd w_h w_hc w_dirty w_open];
+        try discriminate.
       + apply BT_clear; [apply Hh|apply (bt_db _ _ Hh)].
       + apply BT_clear; [apply Hb|apply (bt_db _ _ Hb)].
       + apply BT_clear; [apply Hr|apply (bt_db _ _ Hr)].
@@ -1029,7 +1039,8 @@ Section CrashP.
       injection Hs as <-.
       assert (Hndc : NoDup (map fst (b_cache (b_reorg (st_hash s) n)))).
       { apply ksorted_nodup. apply (bt_sorted_reorg _ n (bt_s _ _ Hh)). }
-      constructor; cbn [sto_clear st_t st_hash st_blk st_raw fst snd w_h w_hc w_dirty w_open].
+      constructor; cbn [sto_clear st_t st_hash st_blk st_raw st_lbn fst snd w_h w_hc w_dirty w_open];
+        try discriminate.
       + apply BT_reorg; [apply Hh|reflexivity].
       + apply BT_reorg; [apply Hb|reflexivity].
       + apply BT_reorg; [apply Hr|reflexivity].
@@ -1139,7 +1150,7 @@ Section CrashP.
     { cbn [wf_step]. rewrite Ehc. reflexivity. }
     assert (Hs : sto_step W s SClear = Ok (reopen (persistent s))) by reflexivity.
     pose proof (SInv_step W s (cur, sav) st SClear _ _ I Hwf Hs) as I'. cbn [fs_step] in I'.
-    destruct CI as [Hh Hb Hr Hord Hag Hfs Hfc Hhc Hrow Hemp]. cbn [fst snd] in *.
+    destruct CI as [Hh Hb Hr Hord Hag Hfs Hfc Hhc Hrow Hemp Hlbn]. cbn [fst snd] in *.
     unfold hcN in Hfs. rewrite Ehc in Hfs.
     assert (Hdbmax : forall t, BT t st -> forall x, kv_get (b_db t) x <> None -> x <= hc).
     { intros t B x Hx. apply kv_get_in_keys in Hx. destruct (bt_db _ _ B x Hx) as (hc' & E & Hle).
@@ -1313,5 +1324,427 @@ Section CrashP.
     exists (reopen d'). split; [reflexivity|].
     unfold d'. rewrite (apply_flushes p Hfl). rewrite Hnhc'.
     apply (recovered_at_commit_point s (cur, sav) st hc I CI Ehc).
+  Qed.
+  (* ================= (c) a crash inside reorg ================= *)
+
+  Lemma seqN_snoc a j : seqN a (S j) = seqN a j ++ [a + N.of_nat j].
+  Proof.
+    revert a. induction j as [|j IH]; intros a.
+    - cbn [seqN app]. f_equal. lia.
+    - change (seqN a (S (S j))) with (a :: seqN (a + 1) (S j)). rewrite IH.
+      cbn [seqN app]. f_equal. f_equal. f_equal. lia.
+  Qed.
+
+  Lemma In_seqN x a len : In x (seqN a len) -> a <= x /\ x < a + N.of_nat len.
+  Proof.
+    revert a. induction len as [|l IH]; intros a H; [destruct H|].
+    cbn [seqN] in H. destruct H as [<-|H]; [lia|]. specialize (IH _ H). lia.
+  Qed.
+
+  (* no delete of the height row of block x *)
+  Definition ndel (x : N) (w : pwrite) : Prop :=
+    match w with PBlockDel 0 k => k <> x | _ => True end.
+
+  Lemma present_stays_ndel x l : Forall (ndel x) l -> forall P,
+    kv_get (p_hash P) x <> None -> kv_get (p_hash (apply_pwrites P l)) x <> None.
+  Proof.
+    induction 1 as [|w l Hw Hl IH]; intros P Hk; [exact Hk|].
+    rewrite apply_pwrites_cons. apply IH.
+    destruct w as [k1 v|k1|k1 h|k1|wh k1 v|wh k1|wh|y]; try (destruct wh as [|[q|q|]]);
+      cbn [apply_pwrite p_hash]; try exact Hk.
+    - rewrite kv_get_put. destruct (k1 =? x); [discriminate|exact Hk].
+    - cbn [ndel] in Hw. rewrite kv_get_del. destruct (N.eqb_spec k1 x); [contradiction|exact Hk].
+  Qed.
+
+  Lemma isv_ndel x w : isv w -> ndel x w.
+  Proof. destruct w; cbn; tauto. Qed.
+
+  Lemma bputs_ndel x which c : Forall (ndel x) (bputs which c).
+  Proof.
+    unfold bputs. apply Forall_app. split; [|repeat constructor].
+    apply Forall_forall. intros w Hw. apply in_map_iff in Hw as (e & <- & He). exact Logic.I.
+  Qed.
+
+  Lemma bdels_ndel x which t n0 : x <= n0 -> Forall (ndel x) (bdels which t n0).
+  Proof.
+    intros Hx. unfold bdels. destruct (b_last_key t); [|constructor].
+    apply Forall_forall. intros w Hw. apply in_map_iff in Hw as (k & <- & Hk).
+    apply In_seqN in Hk. destruct which as [|[q|q|]]; cbn [ndel]; try exact Logic.I. lia.
+  Qed.
+
+  Lemma bdels_wok which t n0 m M : m <= n0 -> Forall (wok m M) (bdels which t n0).
+  Proof.
+    intros Hm. unfold bdels. destruct (b_last_key t); [|constructor].
+    apply Forall_forall. intros w Hw. apply in_map_iff in Hw as (k & <- & Hk).
+    apply In_seqN in Hk. cbn [wok]. lia.
+  Qed.
+
+  Lemma bdels_nonv which t n0 : Forall nonv (bdels which t n0).
+  Proof.
+    unfold bdels. destruct (b_last_key t); [|constructor].
+    apply Forall_forall. intros w Hw. apply in_map_iff in Hw as (k & <- & Hk). exact Logic.I.
+  Qed.
+
+  Lemma b_last_key_eq (t : btable N) h :
+    bt_sorted t -> In h (map fst (b_db t) ++ map fst (b_cache t)) ->
+    (forall x, In x (map fst (b_db t) ++ map fst (b_cache t)) -> x <= h) -> b_last_key t = Some h.
+  Proof.
+    intros Hs Hin Hmax. destruct (b_last_key_max t h Hs Hin) as (e & He & Hle). rewrite He. f_equal.
+    assert (Hein : In e (map fst (b_db t) ++ map fst (b_cache t))).
+    { unfold b_last_key, omax in He. apply in_or_app.
+      destruct (kv_last_key (b_db t)) as [x|] eqn:E1; destruct (kv_last_key (b_cache t)) as [y|] eqn:E2;
+        try discriminate; injection He as <-.
+      - destruct (N.max_spec x y) as [[_ ->]|[_ ->]]; [right|left]; apply kv_last_key_in; assumption.
+      - left. apply kv_last_key_in; assumption.
+      - right. apply kv_last_key_in; assumption. }
+    specialize (Hmax e Hein). lia.
+  Qed.
+
+  (* on a clean boundary the engine's height is the height of the trace *)
+  Lemma heights_are s F st h :
+    CInv s F st -> w_dirty st = false -> w_h st = Some h ->
+    latest_height s = h /\ next_height s = h + 1.
+  Proof.
+    intros CI Hclean Eh. unfold latest_height, next_height.
+    destruct (st_lbn s) as [x|] eqn:El.
+    - rewrite (ci_lbn _ _ _ CI x El) in Eh. injection Eh as <-. split; reflexivity.
+    - assert (Hl : b_last_key (st_hash s) = Some h).
+      { pose proof (ci_hash _ _ _ CI) as B. apply b_last_key_eq; [apply B| |].
+        - apply in_or_app. destruct (b_get_in_cache_or_db _ _ (ci_hrow _ _ _ CI Hclean h Eh)) as [H|H];
+            [right|left]; apply kv_get_in_keys; exact H.
+        - intros x Hx. apply in_app_or in Hx as [Hx|Hx].
+          + destruct (bt_db _ _ B x Hx) as (hc & Ehc & Hle).
+            destruct (ci_ord _ _ _ CI hc Ehc) as (h' & Eh' & Hle'). rewrite Eh in Eh'. injection Eh' as <-. lia.
+          + pose proof (bt_hi _ _ B x Hx) as H. unfold cache_hi, top in H. rewrite Eh, Hclean in H. exact H. }
+      rewrite Hl. split; reflexivity.
+  Qed.
+
+  Lemma filter_le_none (c : kv N) n : (forall x, In x (map fst c) -> n < x) -> filter (fun r => fst r <=? n) c = [].
+  Proof.
+    intros H. induction c as [|[k v] c IH]; [reflexivity|].
+    cbn [filter fst]. destruct (N.leb_spec k n) as [Hle|Hgt].
+    - specialize (H k (or_introl eq_refl)). lia.
+    - apply IH. intros x Hx. apply H. right. exact Hx.
+  Qed.
+
+  (* the result of a completed reorg(n0), n0 at or below the committed height *)
+  Lemma recovered_after_reorg s F st h hc n0 s_r :
+    SInv W s F st -> CInv s F st -> w_dirty st = false -> w_h st = Some h -> w_hc st = Some hc ->
+    n0 <= h -> n0 <= hc -> w_m st <= n0 + W -> b_get (st_hash s) n0 <> None ->
+    sto_reorg W s n0 = Ok s_r ->
+    Recovered s F st s_r n0 /\ reopen (persistent s_r) = s_r.
+  Proof.
+    intros I CI Hclean Eh Ehc Hn0h Hn0hc Hwin Hrow Hr.
+    set (st1 := mkWf (Some n0) (w_m st) (Some n0) false None).
+    assert (Hwf : wf_step W st (SReorg n0) = Some st1).
+    { cbn [wf_step]. rewrite Eh, Hclean. cbn [negb andb].
+      rewrite (proj2 (N.leb_le _ _) Hn0h), (proj2 (N.leb_le _ _) Hwin). reflexivity. }
+    assert (Hs : sto_step W s (SReorg n0) = Ok s_r) by exact Hr.
+    assert (Hok : crash_step_ok s (SReorg n0) = true).
+    { cbn [crash_step_ok]. destruct (b_get (st_hash s) n0); [reflexivity|contradiction]. }
+    pose proof (SInv_step W s F st _ _ _ I Hwf Hs) as I'.
+    pose proof (CInv_step s F st _ _ _ I CI Hok Hwf Hs) as CI'.
+    destruct (heights_are s_r _ st1 n0 CI' eq_refl eq_refl) as [Hl1 Hl2].
+    assert (Hreads : forall k, t_latest (st_t s_r) k = Ok (fst F k n0)).
+    { intros k. apply (store_reorg_restores W s F st n0 st1 s_r k I Hwf Hs). }
+    destruct F as [cur sav]. cbn [fs_step fst] in *.
+    unfold sto_reorg in Hr.
+    destruct (W + n0 <? match st_max s with Some m => m | None => 0 end); [discriminate|].
+    destruct (t_reorg W (st_t s) n0) as [t1| |]; cbn [rbind] in Hr; try discriminate.
+    unfold sto_commit in Hr. cbn [st_t st_hash st_blk st_raw st_max st_lbn] in Hr.
+    destruct (t_commit W t1 _) as [t2| |]; cbn [rbind] in Hr; try discriminate.
+    injection Hr as <-.
+    assert (Hrows : forall t, BT t st -> forall x,
+              b_get (b_clear (b_commit (b_reorg t n0))) x = if x <=? n0 then kv_get (b_db t) x else None).
+    { intros t B x.
+      rewrite (b_get_commit_clear _ _ (ksorted_nodup _ (proj2 (bt_sorted_reorg _ n0 (bt_s _ _ B))))).
+      rewrite b_get_reorg. destruct (N.leb_spec x n0); [|reflexivity].
+      unfold b_get. rewrite (kv_get_none_notin (b_cache t) x); [reflexivity|].
+      intros Hin. pose proof (bt_lo _ _ B x hc Hin Ehc). lia. }
+    split; [|reflexivity].
+    unfold Recovered. cbn [fst].
+    split; [exact Hreads|]. split; [exact (Hrows _ (ci_hash _ _ _ CI))|].
+    split; [exact (Hrows _ (ci_blk _ _ _ CI))|]. split; [exact (Hrows _ (ci_raw _ _ _ CI))|].
+    split; [exact Hl1|]. split; [exact Hl2|]. exact I'.
+  Qed.
+
+  Theorem store_crash_in_reorg_recovers s F st n0 ws p q n :
+    SInv W s F st -> CInv s F st -> w_dirty st = false ->
+    engine_reorg_guard W 0 s n0 = RvDo ->
+    b_get (st_hash s) n0 <> None ->
+    reorg_script W s n0 = Ok ws -> ws = p ++ q ->
+    kv_get (b_db (st_hash s)) n <> None -> n <= n0 ->
+    w_m st <= n + W ->
+    (exists hc, w_hc st = Some hc /\ n <= hc) /\
+    engine_reorg_guard W 0 (reopen (apply_pwrites (persistent s) p)) n <> RvRefused /\
+    exists s2, engine_reorg W (reopen (apply_pwrites (persistent s) p)) n = Ok s2 /\
+               Recovered s F st s2 n.
+  Proof.
+    intros I CI Hclean Hg0 Hn0row Hrs0 Hpq Hn Hnn0 Hwin.
+    assert (Hnin : In n (map fst (b_db (st_hash s)))) by (apply kv_get_in_keys; exact Hn).
+    destruct (bt_db _ _ (ci_hash _ _ _ CI) n Hnin) as (hc & Ehc & Hnhc).
+    destruct (ci_ord _ _ _ CI hc Ehc) as (h & Eh & Hhch).
+    split; [exists hc; split; assumption|].
+    destruct (heights_are s F st h CI Hclean Eh) as [Hlh _].
+    apply engine_guard_spec in Hg0 as (_ & Hn0h & _). rewrite Hlh in Hn0h.
+    pose proof (psorted_persistent s F st I CI) as Hps.
+    pose proof I as [It Imax Ilbn Ikeys Idb Ih Ihc Iopen Icl].
+    pose proof (Ih h Eh) as Hhm.
+    destruct It as (clk & sclk & TR & Hclk & Hsclk).
+    assert (Hbd : bound st = w_m st).
+    { unfold bound, dstamp. rewrite (Icl Hclean), Hclean. lia. }
+    assert (Htop : top st = h) by (unfold top; rewrite Eh, Hclean; reflexivity).
+    pose proof (ci_hash _ _ _ CI) as BTh. pose proof (ci_blk _ _ _ CI) as BTb. pose proof (ci_raw _ _ _ CI) as BTr.
+    destruct F as [cur sav]. cbn [fst snd] in *.
+    set (m0 := N.min n0 hc).
+    (* the script *)
+    pose proof Hrs0 as Hrs. unfold reorg_script in Hrs.
+    destruct (W + n0 <? match st_max s with Some m => m | None => 0 end) eqn:Hguard; [discriminate|].
+    destruct (reorg_keys (st_t s) n0 (map fst (t_cdb (st_t s)) ++ map fst (t_cache (st_t s)))) as [t1| |] eqn:E1;
+      cbn [rbind] in Hrs; try discriminate.
+    destruct (vscript W n0 (t_cache t1)) as [v| |] eqn:Hv; cbn [rbind] in Hrs; try discriminate.
+    injection Hrs as Hws.
+    destruct (reorg_keys_view n0 _ _ _ E1) as (Hd1 & Hc1 & Hnd1 & Hv1).
+    set (c0 := b_cache (st_hash s)) in *.
+    set (hash1 := b_commit (st_hash s)) in *.
+    set (Y := PFlush 3 :: bputs 0 (b_cache (b_reorg hash1 n0)) ++ bputs 1 (b_cache (b_reorg (st_blk s) n0))
+                       ++ bputs 2 (b_cache (b_reorg (st_raw s) n0))) in *.
+    set (B := bdels 1 (st_blk s) n0 ++ bdels 2 (st_raw s) n0 ++ bdels 0 hash1 n0 ++ Y) in *.
+    assert (Hcachekeys : forall t, BT t st -> forall x, In x (map fst (b_cache t)) -> hc < x /\ x <= w_m st).
+    { intros t Bt x Hx. split; [apply (bt_lo _ _ Bt x hc Hx Ehc)|].
+      pose proof (bt_hi _ _ Bt x Hx) as H. unfold cache_hi in H. rewrite Eh, Htop in H. lia. }
+    assert (Hfk : forall t, BT t st -> forall x, In x (map fst (b_cache (b_reorg t n0))) -> m0 < x /\ x <= w_m st).
+    { intros t Bt x Hx. cbn [b_reorg b_cache] in Hx. destruct (filter_le_keys _ _ _ Hx) as [_ Hx'].
+      destruct (Hcachekeys t Bt x Hx'). unfold m0. lia. }
+    assert (Hfk1 : forall x, In x (map fst (b_cache (b_reorg hash1 n0))) -> m0 < x /\ x <= w_m st).
+    { intros x Hx. apply (Hfk _ BTh x). exact Hx. }
+    assert (HwokY : Forall (wok m0 (w_m st)) Y).
+    { unfold Y. constructor; [exact Logic.I|]. apply Forall_app. split; [|apply Forall_app; split]; apply bputs_wok;
+        [exact Hfk1|apply (Hfk _ BTb)|apply (Hfk _ BTr)]. }
+    assert (HwokB : Forall (wok m0 (w_m st)) B).
+    { unfold B. apply Forall_app. split; [apply bdels_wok; unfold m0; lia|].
+      apply Forall_app. split; [apply bdels_wok; unfold m0; lia|].
+      apply Forall_app. split; [apply bdels_wok; unfold m0; lia|exact HwokY]. }
+    assert (HwokA : Forall (wok m0 (w_m st)) (bputs 0 c0)).
+    { apply bputs_wok. intros x Hx. destruct (Hcachekeys _ BTh x Hx). unfold m0. lia. }
+    assert (Hwokv : Forall (wok m0 (w_m st)) v).
+    { apply (Forall_impl' isv); [apply isv_wok|apply (vscript_isv _ _ _ Hv)]. }
+    assert (Hwok : Forall (wok m0 (w_m st)) ws).
+    { rewrite <- Hws. apply Forall_app. split; [exact HwokA|]. apply Forall_app. split; assumption. }
+    assert (HnonvB : Forall nonv B).
+    { unfold B, Y. apply Forall_app. split; [apply bdels_nonv|]. apply Forall_app. split; [apply bdels_nonv|].
+      apply Forall_app. split; [apply bdels_nonv|]. constructor; [exact Logic.I|].
+      apply Forall_app. split; [|apply Forall_app; split]; apply bputs_nonv. }
+    set (P0 := persistent s) in *.
+    set (d' := apply_pwrites P0 p).
+    destruct (apply_wok m0 (w_m st) p (Forall_prefix _ _ _ _ Hwok Hpq) P0) as (Hmaxd & Bh & Bb & Br).
+    fold d' in Hmaxd, Bh, Bb, Br. cbn [P0 persistent p_hash p_blk p_raw p_max] in Hmaxd, Bh, Bb, Br.
+    assert (Hnm0 : n <= m0) by (unfold m0; lia).
+    assert (Hpsd : psorted d') by (apply apply_pwrites_sorted; exact Hps).
+    (* the cells *)
+    assert (Hclass1 : forall l q', v = l ++ q' -> forall PA, p_db PA = t_db (st_t s) -> p_cdb PA = t_cdb (st_t s) ->
+              forall k, let c := view t1 k in let K := pcell (apply_pwrites PA l) k in
+                        K = crash_none c \/ crash_mid W n0 c = Ok K \/ crash_both W n0 c = Ok K).
+    { intros l q' Hl PA EA1 EA2 k.
+      destruct (vscript_prefix_cells _ _ (Hnd1 (tr_nodup _ _ _ TR)) _ Hv l q' Hl PA) as (_ & Hc).
+      specialize (Hc k). cbn zeta in Hc |- *. rewrite EA1, EA2 in Hc. unfold view. rewrite Hd1, Hc1. exact Hc. }
+    assert (Hclass : forall k,
+               let c := view (st_t s) k in let K := pcell d' k in
+               K = crash_none c \/
+               exists h', h_reorg (c_retrieve c) n0 = Ok h' /\
+                          (K = crash_none (c_write c h') \/ crash_mid W n0 (c_write c h') = Ok K \/
+                           crash_both W n0 (c_write c h') = Ok K)).
+    { intros k. cbn zeta.
+      assert (Hlift : forall K, (K = crash_none (view t1 k) \/ crash_mid W n0 (view t1 k) = Ok K \/
+                                 crash_both W n0 (view t1 k) = Ok K) ->
+                K = crash_none (view (st_t s) k) \/
+                exists h', h_reorg (c_retrieve (view (st_t s) k)) n0 = Ok h' /\
+                  (K = crash_none (c_write (view (st_t s) k) h') \/ crash_mid W n0 (c_write (view (st_t s) k) h') = Ok K \/
+                   crash_both W n0 (c_write (view (st_t s) k) h') = Ok K)).
+      { intros K HK. specialize (Hv1 k). rewrite memb_touched in Hv1.
+        destruct (c_touched (view (st_t s) k)) eqn:Ht.
+        - destruct Hv1 as (h' & Hh' & Hv1). right. exists h'. split; [exact Hh'|]. rewrite <- Hv1. exact HK.
+        - left. rewrite Hv1 in HK. unfold c_touched in Ht.
+          destruct (view (st_t s) k) as [[dd pp] mm]. cbn [c_p c_m fst snd] in Ht.
+          destruct pp; [discriminate|]. destruct mm; [discriminate|].
+          unfold crash_none, crash_mid, crash_both, c_commit in *. cbn [c_m c_d c_p fst snd] in *.
+          destruct HK as [HK|[HK|HK]]; congruence. }
+      rewrite <- Hws in Hpq.
+      destruct (app_eq_app _ _ _ _ Hpq) as (l & [[HA Hq]|[Hp Hvl]]).
+      - left. assert (Hnv : Forall nonv p) by (apply (Forall_prefix _ _ _ _ (bputs_nonv 0 c0) HA)).
+        destruct (apply_nonv p Hnv P0) as [E1' E2']. unfold pcell, d'. rewrite E1', E2'. reflexivity.
+      - destruct (apply_nonv _ (bputs_nonv 0 c0) P0) as [EA1 EA2].
+        apply Hlift. unfold d'. rewrite Hp, apply_pwrites_app.
+        destruct (app_eq_app _ _ _ _ Hvl) as (l2 & [[Hv2 Hq2]|[Hl2 HB2]]).
+        + apply (Hclass1 l l2 Hv2 _ EA1 EA2 k).
+        + rewrite Hl2, apply_pwrites_app.
+          assert (Hnv : Forall nonv l2) by (apply (Forall_prefix _ _ _ _ HnonvB HB2)).
+          destruct (apply_nonv l2 Hnv (apply_pwrites (apply_pwrites P0 (bputs 0 c0)) v)) as [E1' E2'].
+          pose proof (Hclass1 v [] (eq_sym (app_nil_r v)) _ EA1 EA2 k) as Hc. cbn zeta in Hc.
+          unfold pcell in *. rewrite E1', E2'. exact Hc. }
+    assert (Hcells : forall k, exists c', c_reorg W n (pcell d' k) = Ok c' /\
+               CellRepr c' (s_reorg (cur k) n) (s_reorg (cur k) n) (w_m st) (w_m st)).
+    { intros k.
+      apply (cell_reorg_crash_recovers (view (st_t s) k) (cur k) (sav k) clk sclk n0 hc n (w_m st)
+               (tr_cells _ _ _ TR k)); try lia.
+      - intros m Hm. apply (ci_agree _ _ _ CI hc Ehc k m Hm).
+      - apply Hclass. }
+    destruct (recover_general s (cur, sav) st d' n I Hclean Hwin Hpsd Hmaxd Hcells) as (s2 & Hs2 & Hrec);
+      try (intros x Hx; first [apply (proj1 Bh)|apply (proj1 Bb)|apply (proj1 Br)]; lia); try exact Hn; try lia.
+    (* the guard *)
+    destruct Hpsd as (_ & _ & Hsh & _ & _).
+    assert (Hnd' : kv_get (p_hash d') n <> None) by (rewrite (proj1 Bh n Hnm0); exact Hn).
+    assert (HM : forall x, kv_get (p_hash d') x <> None -> x <= w_m st).
+    { intros x Hx. destruct (proj2 Bh x Hx) as [H|H]; [|exact H]. apply Idb. apply kv_get_in_keys. exact H. }
+    destruct (guard_on_reopened d' n (w_m st) Hsh Hnd' HM Hwin) as (L & HL & HLin & HnL & HLmax & Hg).
+    unfold engine_reorg. rewrite Hg.
+    destruct (N.eqb_spec n L) as [HnLe|HnLne]; [|split; [discriminate|exists s2; split; assumption]].
+    split; [discriminate|].
+    (* ---- no-op: where can the prefix end? ---- *)
+    subst n.
+    exists (reopen d'). split; [reflexivity|].
+    assert (Hh1 : kv_get (puts c0 (b_db (st_hash s))) h <> None).
+    { unfold puts. rewrite (kv_get_fold_put _ _ _ (ksorted_nodup _ (proj2 (bt_s _ _ BTh)))).
+      destruct (b_get_in_cache_or_db _ _ (ci_hrow _ _ _ CI Hclean h Eh)) as [H|H]; fold c0 in H |- *;
+        destruct (kv_get c0 h); try discriminate; try contradiction; exact H. }
+    assert (Hn01 : kv_get (puts c0 (b_db (st_hash s))) n0 <> None).
+    { unfold puts. rewrite (kv_get_fold_put _ _ _ (ksorted_nodup _ (proj2 (bt_s _ _ BTh)))).
+      destruct (b_get_in_cache_or_db _ _ Hn0row) as [H|H]; fold c0 in H |- *;
+        destruct (kv_get c0 n0); try discriminate; try contradiction; exact H. }
+    assert (Hlast1 : b_last_key hash1 = Some h).
+    { apply b_last_key_eq; [apply bt_sorted_commit; apply BTh| |].
+      - apply in_or_app. left. apply kv_get_in_keys. exact Hh1.
+      - intros x Hx. apply in_app_or in Hx as [Hx|Hx].
+        + destruct (keys_b_commit_db _ _ Hx) as [Hx'|Hx'].
+          * destruct (bt_db _ _ BTh x Hx') as (hc' & E & Hle). rewrite Ehc in E. injection E as <-. lia.
+          * pose proof (bt_hi _ _ BTh x Hx') as H. unfold cache_hi in H. rewrite Eh, Htop in H. exact H.
+        + pose proof (bt_hi _ _ BTh x Hx) as H. unfold cache_hi in H. rewrite Eh, Htop in H. exact H. }
+    (* the deletes of the height rows end with the row of h *)
+    destruct (N.to_nat (h - n0)) as [|j] eqn:Ej; [lia|].
+    assert (Hbd0 : bdels 0 hash1 n0 = map (PBlockDel 0) (seqN (n0 + 1) j) ++ [PBlockDel 0 h]).
+    { unfold bdels. rewrite Hlast1, Ej, seqN_snoc, map_app. cbn [map]. do 3 f_equal. lia. }
+    set (X1 := map (fun e => PBlockPut 0 (fst e) (snd e)) c0).
+    set (X2 := [PFlush 0] ++ v ++ bdels 1 (st_blk s) n0 ++ bdels 2 (st_raw s) n0 ++ map (PBlockDel 0) (seqN (n0 + 1) j)).
+    assert (HwsX : ws = X1 ++ X2 ++ PBlockDel 0 h :: Y).
+    { rewrite <- Hws. unfold X1, X2, B, Y. rewrite Hbd0. unfold bputs. cbn [b_reorg b_cache b_commit hash1]. rewrite <- !app_assoc. reflexivity. }
+    assert (HX1 : apply_pwrites P0 X1 = set_hash P0 (puts c0 (b_db (st_hash s)))).
+    { pose proof (apply_bputs0 c0 P0) as H. unfold bputs in H. rewrite apply_pwrites_app in H.
+      cbn [apply_pwrites fold_left apply_pwrite] in H. exact H. }
+    assert (HndelX2 : Forall (ndel h) X2).
+    { unfold X2. apply Forall_app. split; [repeat constructor|]. apply Forall_app. split.
+      { apply (Forall_impl' isv); [apply isv_ndel|apply (vscript_isv _ _ _ Hv)]. }
+      apply Forall_app. split.
+      { unfold bdels. destruct (b_last_key (st_blk s)); [|constructor]. apply Forall_forall.
+        intros w Hw. apply in_map_iff in Hw as (k & <- & _). exact Logic.I. }
+      apply Forall_app. split.
+      { unfold bdels. destruct (b_last_key (st_raw s)); [|constructor]. apply Forall_forall.
+        intros w Hw. apply in_map_iff in Hw as (k & <- & _). exact Logic.I. }
+      apply Forall_forall. intros w Hw. apply in_map_iff in Hw as (k & <- & Hk). apply In_seqN in Hk.
+      cbn [ndel]. lia. }
+    rewrite HwsX in Hpq.
+    destruct (app_eq_app _ _ _ _ Hpq) as (l & [[HA Hq]|[Hp Hrest]]).
+    - (* inside the first puts of the height rows *)
+      destruct p as [|x p'].
+      + assert (HLhc : L = hc).
+        { assert (Hhcin : kv_get (p_hash d') hc <> None).
+          { unfold d'. cbn [apply_pwrites fold_left P0 persistent p_hash]. apply kv_get_in_keys.
+            apply (ci_hc _ _ _ CI hc Ehc). }
+          pose proof (HLmax hc Hhcin). lia. }
+        rewrite HLhc. unfold d'. cbn [apply_pwrites fold_left].
+        apply (recovered_at_commit_point s (cur, sav) st hc I CI Ehc).
+      + exfalso. unfold X1 in HA. destruct c0 as [|e c0'] eqn:Ec0; [discriminate|].
+        cbn [map app] in HA. injection HA as <- HA.
+        assert (Hnd : Forall nodel (PBlockPut 0 (fst e) (snd e) :: p')).
+        { apply (Forall_prefix nodel (map (fun e0 => PBlockPut 0 (fst e0) (snd e0)) (e :: c0')) _ l).
+          - apply Forall_forall. intros w Hw. apply in_map_iff in Hw as (e1 & <- & _). exact Logic.I.
+          - cbn [map app]. f_equal. exact HA. }
+        pose proof (put_persists _ Hnd P0 (fst e) (snd e) (or_introl eq_refl)) as Hk.
+        fold d' in Hk. pose proof (HLmax _ Hk).
+        destruct (Hcachekeys _ BTh (fst e)) as [Hlo _]; [fold c0; rewrite Ec0; left; reflexivity|]. lia.
+    - destruct (app_eq_app _ _ _ _ Hrest) as (l2 & [[HX2 Hq2]|[Hl2 HY2]]).
+      + (* before the delete of the row of h: that row is still there *)
+        exfalso.
+        assert (Hk : kv_get (p_hash d') h <> None).
+        { unfold d'. rewrite Hp, apply_pwrites_app, HX1.
+          apply (present_stays_ndel h l (Forall_prefix _ _ _ _ HndelX2 HX2)). exact Hh1. }
+        pose proof (HLmax h Hk). lia.
+      + destruct l2 as [|x l3].
+        * (* exactly before it *)
+          exfalso. rewrite app_nil_r in Hl2. subst l.
+          assert (Hk : kv_get (p_hash d') h <> None).
+          { unfold d'. rewrite Hp, apply_pwrites_app, HX1.
+            apply (present_stays_ndel h X2 HndelX2). exact Hh1. }
+          pose proof (HLmax h Hk). lia.
+        * (* after it: the reorg is complete up to flushes *)
+          cbn [app] in HY2. injection HY2 as <- HY2.
+          assert (Hn0in : kv_get (p_hash d') n0 <> None).
+          { unfold d'. rewrite Hp, apply_pwrites_app, HX1.
+            assert (Hnd : Forall (ndel n0) l).
+            { rewrite Hl2. apply Forall_app. split.
+              - unfold X2. apply Forall_app. split; [repeat constructor|]. apply Forall_app. split.
+                { apply (Forall_impl' isv); [apply isv_ndel|apply (vscript_isv _ _ _ Hv)]. }
+                apply Forall_app. split; [apply bdels_ndel; lia|].
+                apply Forall_app. split; [apply bdels_ndel; lia|].
+                apply Forall_forall. intros w Hw. apply in_map_iff in Hw as (k & <- & Hk).
+                apply In_seqN in Hk. cbn [ndel]. lia.
+              - constructor; [cbn [ndel]; lia|].
+                apply (Forall_prefix (ndel n0) Y l3 q); [|exact HY2].
+                unfold Y. constructor; [exact Logic.I|].
+                apply Forall_app. split; [|apply Forall_app; split]; apply bputs_ndel. }
+            apply (present_stays_ndel n0 l Hnd). exact Hn01. }
+          assert (Hnn : n0 = L) by (pose proof (HLmax n0 Hn0in); lia).
+          subst n0.
+          (* the surviving caches are empty: Y is flushes only *)
+          assert (HYfl : Forall isflush Y).
+          { unfold Y. cbn [b_reorg b_cache].
+            rewrite (filter_le_none (b_cache hash1) L), (filter_le_none (b_cache (st_blk s)) L),
+              (filter_le_none (b_cache (st_raw s)) L).
+            - repeat constructor.
+            - intros x Hx. destruct (Hcachekeys _ BTr x Hx). lia.
+            - intros x Hx. destruct (Hcachekeys _ BTb x Hx). lia.
+            - intros x Hx. destruct (Hcachekeys _ BTh x Hx). lia. }
+          assert (Hfull : d' = apply_pwrites P0 ws).
+          { unfold d'. rewrite HwsX, Hp, Hl2.
+            rewrite !apply_pwrites_app, !apply_pwrites_cons.
+            rewrite (apply_flushes l3 (Forall_prefix _ _ _ _ HYfl HY2)).
+            rewrite (apply_flushes Y HYfl). reflexivity. }
+          assert (Hwf : wf_step W st (SReorg L) <> None).
+          { cbn [wf_step]. rewrite Eh, Hclean. cbn [negb andb].
+            rewrite (proj2 (N.leb_le L h) ltac:(lia)), (proj2 (N.leb_le _ _) Hwin). discriminate. }
+          destruct (wf_step W st (SReorg L)) as [st1|] eqn:Ewf; [|contradiction].
+          destruct (store_reorg_ok W s (cur, sav) st L st1 I Ewf) as (s_r & Hsr).
+          cbn [sto_step] in Hsr.
+          destruct (reorg_script_correct s L s_r
+                      (conj (bt_s _ _ BTh) (conj (bt_s _ _ BTb) (bt_s _ _ BTr))) Hsr) as (ws' & Hws' & Hap).
+          rewrite Hrs0 in Hws'. injection Hws' as <-.
+          destruct (recovered_after_reorg s (cur, sav) st h hc L s_r I CI Hclean Eh Ehc ltac:(lia) Hnhc Hwin
+                      Hn0row Hsr) as [Hrec' Hre].
+          rewrite Hfull. fold P0 in Hap. rewrite Hap, Hre. exact Hrec'.
+  Qed.
+
+  (* ---------- the statements over recorded traces ---------- *)
+  Theorem crun_commit_crash ops st s ws p q n :
+    crun W wf_init st_empty ops = Some (st, s) -> w_dirty st = false ->
+    commit_script W s = Ok ws -> ws = p ++ q ->
+    kv_get (b_db (st_hash s)) n <> None -> w_m st <= n + W ->
+    exists s2, engine_reorg W (reopen (apply_pwrites (persistent s) p)) n = Ok s2 /\
+               Recovered s (fs_run fs_init ops) st s2 n.
+  Proof.
+    intros Hrun Hclean Hcs Hpq Hn Hwin.
+    destruct (crun_inv ops _ _ _ _ _ (SInv_init W) CInv_init Hrun) as [I CI].
+    apply (store_crash_in_commit_recovers s _ st ws p q n I CI Hclean Hcs Hpq Hn Hwin).
+  Qed.
+
+  Theorem crun_reorg_crash ops st s n0 ws p q n :
+    crun W wf_init st_empty ops = Some (st, s) -> w_dirty st = false ->
+    engine_reorg_guard W 0 s n0 = RvDo -> b_get (st_hash s) n0 <> None ->
+    reorg_script W s n0 = Ok ws -> ws = p ++ q ->
+    kv_get (b_db (st_hash s)) n <> None -> n <= n0 -> w_m st <= n + W ->
+    exists s2, engine_reorg W (reopen (apply_pwrites (persistent s) p)) n = Ok s2 /\
+               Recovered s (fs_run fs_init ops) st s2 n.
+  Proof.
+    intros Hrun Hclean Hg Hrow Hrs Hpq Hn Hnn0 Hwin.
+    destruct (crun_inv ops _ _ _ _ _ (SInv_init W) CInv_init Hrun) as [I CI].
+    apply (store_crash_in_reorg_recovers s _ st n0 ws p q n I CI Hclean Hg Hrow Hrs Hpq Hn Hnn0 Hwin).
   Qed.
 End CrashP.
